@@ -1,6 +1,6 @@
 #!/bin/bash
 # usage: wave.sh <tag> : confirm and check every seed of /tmp/seeds-<tag>, store as <prop>-<suffix><k>
-tag=$1; prop=${tag%?}; suf=${tag: -1}
+tag=$1; prop=${tag%?}; suf=${tag: -1}; [ -n "$2" ] && prop=$2
 for d in /tmp/seeds-$tag/*/; do
   k=$(basename $d)
   [ -f $d/patch.diff ] || continue
